@@ -292,7 +292,7 @@ class Harness:
         self.string_model = string_model
         if string_model:
             stubs = list(stubs) + STRING_MODEL
-            opts = list(opts) + ['--unwindset', 's_set.0:17,s_app.0:17,s_len.0:18']
+            opts = list(opts) + ['--unwindset', 's_set.0:17,s_app.0:17,s_len.0:18,s_len_x.0:18']
         self.name = name; self.fam = fam; self.roots = list(roots); self.src = src; self.stubs = list(stubs)
         self.keep_virtual = list(keep_virtual); self.shapes = shapes or [{}]; self.opts = list(opts)
         self.timeout = timeout; self.mem_gb = mem_gb; self.inputs = list(inputs); self.units = units
